@@ -880,6 +880,7 @@ class PeekerCall(Unit):
     prop = 'C03'
     file = F
     qual = 'Stream.peek.<locals>.Peeker.__call__'
+    user_format_total = True       # precondition (module ASSUMPTIONS): the elements peek is asked to PRINT can be printed (str() of them does not raise)
     interval_kind = 'int'
     unreachable_ok = ('pass',)      # `except AttributeError: pass` around x.__traceback__ (an exception object always has it)
     trusted = ('print_func and the traceback/remote_exception formatting helpers return normally and have no effect on the stream',)
@@ -986,7 +987,7 @@ NOT_DECIDED = ('user functions passed to map/filter/accumulate are modelled as u
                'unbatch of general iterables (only list/tuple elements are modelled)',
                'meaning of itertools.groupby, random.shuffle/randrange, functools.partial, list() (trusted stdlib contracts)')
 ASSUMPTIONS = ('lists are modelled by value: a list that escapes (is yielded) is not mutated afterwards by the operator (checked syntactically by the unsupported-construct rule: unknown mutating methods make the unit undecided)',
-               'stream elements have a total, side-effect free == and truthiness',
+               'stream elements have a total, side-effect free == and truthiness; elements that peek is asked to print have a total str()',
                'functions under contract are executed by CPython as pyvc\'s documented subset semantics says')
 
 SCENARIOS = [('', 'replay/scenarios/c03_ops.py')]
